@@ -225,8 +225,15 @@ def run_path(topo, up, mode, origins, sizes, nsess, per, sid0):
     dsts = [("ipv4", "127.0.0.1", origins[0].port)] if mode == "reverse" else \
         [("ipv4", "127.0.0.1", origins[0].port), ("domain", "localhost", origins[0].port), ("ipv4", "127.0.0.1", origins[1].port),
          ("domain", "localhost", origins[1].port)]      # the same name on two ports within one session
+    # a session that starts with a burst: its first datagrams are all on the listener's socket before the session exists
+    burst = Session(sid0 + nsess, topo, up, mode)
+    for seq in range(8):
+        burst.send(seq, dsts[seq % len(dsts)], 100 + seq)
+    sessions.append(burst)
+    time.sleep(0.3)
+    burst.poll()
     for seq in range(per):
-        for s in sessions:            # interleaved traffic of all sessions
+        for s in sessions[:nsess]:            # interleaved traffic of all sessions
             dst = dsts[(seq + s.sid) % len(dsts)]
             s.send(seq, dst, sizes[(seq + s.sid) % len(sizes)])
             time.sleep(0.004)
